@@ -179,7 +179,14 @@ If not, see <https://www.gnu.org/licenses/>. 
         return self._imageManagers[args.action](self._typeOfArchive, args.archive)
 
     def run(self) -> int:
-        args = self.createArgParser().parse_args()
+        parser = self.createArgParser()
+        # '--eos' (end of side) is a marker given between the source files, as documented :
+        # it is not an option, although it looks like one to the parser.
+        args, extras = parser.parse_known_args()
+        unknown = [e for e in extras if e.startswith("-") and e.upper() != "--EOS"]
+        if len(unknown) > 0:
+            parser.error("unrecognized arguments: " + " ".join(unknown))
+        args.sources = args.sources + extras
 
         listener = self.createListener(args)
 
